@@ -45,7 +45,7 @@ Fixpoint first_in_pool (heap : list (params * owner)) (k : nat) {struct heap} : 
   | _ :: r => first_in_pool r (S k)
   end.
 Definition auto_step (s : pstate) (i : nat) : pstate :=
-  match pstep false s i (first_in_pool (ps_heap s) 0) with Some s' => s' | None => s end.
+  match pstep as_written_pool s i (first_in_pool (ps_heap s) 0) with Some s' => s' | None => s end.
 (** request i gets its k-th turn at time 2*k + i: staggered, so that objects are taken from the pool by some and
     allocated by others *)
 Definition stagger (n : nat) : list nat :=
